@@ -148,6 +148,16 @@ func (fr *frame) loopModSet(lp *loop) map[string]int {
 			if a.Kind != "assign" || a.E == nil {
 				continue
 			}
+			if a.Occ == -1 {
+				for b := range lp.body {
+					for _, ins := range b.Instrs {
+						if c, ok := ins.(*ssa.Call); ok && fr.isAssertSite(a, c) {
+							ms[e.ghostHeap(a.Label)] = modAny
+						}
+					}
+				}
+				continue
+			}
 			if t := fr.assertTarget(a); t != nil && lp.body[t.Block()] {
 				ms[e.ghostHeap(a.Label)] = modAny
 			}
